@@ -747,7 +747,7 @@ class RealBackend(object):
         return f
 
     def errfut(self, inst, tok):
-        e = SimError(tok)
+        e = (prog.SimStop if tok.startswith("stop") else SimError)(tok)  # ("stop...": a StopIteration)
         self.errors[tok] = e
         self.fired("errfut")
         f = A.ErrorFuture(e)
